@@ -281,7 +281,7 @@ macro_rules! syn_resp {
     };
 }
 
-use http::header::{CONTENT_TYPE, ETAG, IF_MATCH, IF_NONE_MATCH, LOCATION};
+use http::header::{CONTENT_DISPOSITION, CONTENT_TYPE, ETAG, IF_MATCH, IF_NONE_MATCH, LOCATION};
 
 syn_req!(path1, GET, None, { 1.0 => "/_syn/r0/p1/:p1", 1.1 => "/_syn/v3/p1/:p1", }, {
     #[ruma_api(path)] p1: String,
@@ -391,6 +391,10 @@ syn_resp!(resp_raw, {
     #[ruma_api(header = CONTENT_TYPE)] h: String,
     #[ruma_api(raw_body)] rb: Vec<u8>,
 });
+syn_resp!(resp_cd, {
+    #[ruma_api(header = CONTENT_DISPOSITION)] ho: Option<ruma_common::http_headers::ContentDisposition>,
+    #[ruma_api(raw_body)] rb: Vec<u8>,
+});
 syn_resp!(resp_newtype, {
     #[ruma_api(body)] nb: Two,
 });
@@ -412,6 +416,7 @@ fn syn_endpoints() -> Vec<Ep> {
         resp_header::ep(),
         resp_raw::ep(),
         resp_newtype::ep(),
+        resp_cd::ep(),
         resp_found::ep(),
         resp_created::ep(),
         resp_see_other::ep(),
